@@ -986,7 +986,14 @@ func TestC16(t *testing.T) {
 	chainProperty(t, "C16", func(r *Runner, fail func(class, witness, detail string)) Hooks {
 		addressTable(fail)
 		simkit.Global.Inc("address_tables_checked")
-		return Hooks{AfterHead: func(w *World, n *Node, bi *BlockInfo, reorg bool) { checkScopes(n, bi, fail) }}
+		heads := 0
+		return Hooks{AfterHead: func(w *World, n *Node, bi *BlockInfo, reorg bool) {
+			checkScopes(n, bi, fail)
+			// the validator's own Qi path (a block placed by a miner does not pass the pool): no UTXO for a Quai-ledger payee
+			if heads++; !reorg && heads%3 == 0 {
+				directQiVerdicts(n, heads+int(bi.Number), fail, "output-to-in-zone-quai-address", "honest-spend")
+			}
+		}}
 	})
 }
 
